@@ -35,3 +35,15 @@ LEVEL_TEXT["C14"] = ("Exploration: a rapid state machine drives the registry (co
                      "sequences and compares every lookup, the count and the iteration set with a Go map; for the matrix each live connection's stored (row, column) must point at itself. "
                      "A second generator builds populations just around 65536 entries to cross the row boundary.")
 LEVEL_NOTE["C14"] = "Internal test file overlaid into package gnet (uses addConn/delConn/getConn/iterate/loadCount and, for the matrix, its fields); bare conn values; both build variants."
+
+LEVEL_TEXT["C16"] = ("Exploration: parseProtoAddr is driven with grammar-generated well-formed addresses (oracle: lower-cased scheme and the endpoint exactly as written / path.Clean of the written path), "
+                     "four classes of ill-formed addresses (oracle: the documented error), arbitrary strings (oracle: no panic; nil error implies supported scheme and non-empty endpoint; errors are the two documented ones or a URL parse error) "
+                     "and, thorough tier, a native coverage-guided fuzz target with the same predicate; option normalisation is compared with a reference normaliser for boundary-biased ints through createListeners and NewClient.")
+LEVEL_NOTE["C16"] = "Internal test file overlaid into package gnet (parseProtoAddr, createListeners, determineEventLoops, Client.opts). '?'/'#' inside unix paths and option values above 2^62 are outside the generated domain."
+LEVEL_TEXT["C15"] = ("Exploration: each balancer is driven over 1..256 bare loops with generated accept/close/open-elsewhere histories and address values and checked against the policy definition on every call "
+                     "(RR: i mod N; LC: minimal count at call time; SAH: equal address strings give equal loops; always a registered loop). "
+                     "Engine-level sessions (C04/C05 fixtures) check that a connection's callbacks run on the loop it was assigned to.")
+LEVEL_NOTE["C15"] = "Policy half uses an internal test overlaid into package gnet with bare eventloop values; the accept path itself is exercised by the engine-level checks."
+LEVEL_TEXT["C17"] = ("Exploration: generated IP/port/zone/Unix addresses are converted to the kernel socket-address form and back (both directions checked: the kernel form itself and the round trip, zones by interface index and textual form); "
+                     "invalid IP lengths, unsupported Unix networks and unknown address types must yield nil without panic. Engine-level sessions compare RemoteAddr/LocalAddr with the peers' own addresses under connection churn.")
+LEVEL_NOTE["C17"] = "Zone names that are neither an existing interface nor a decimal number have no kernel representation and are outside the domain; numeric zones below 0xFFFFFF."
